@@ -156,7 +156,7 @@ def run(tier, seed):
     faults = []
 
     def add(name, text, bound_s, cleanups, sig=None, args=None, points=None, expect_fail=None, allow_left=False):
-        faults.append({"name": name, "play": e2e.Play(text, args=args, timeout=90, sigspec=sig, points=points, keep=True),
+        faults.append({"name": name, "play": e2e.Play(text, args=args, timeout=bound_s + 12, sigspec=sig, points=points, keep=True),
                        "bound": bound_s, "cleanups": cleanups, "expect_fail": expect_fail, "allow_left": allow_left})
 
     add("SIGINT during a long action", e2e_play(), 8, 2, sig=(1.0, signal.SIGINT), expect_fail=True)
@@ -172,6 +172,16 @@ def run(tier, seed):
     add("a completed action left a process in the background", e2e_play(scene_x="bg", extra_actions="  :bg (setsid sleep 7 >/dev/null 2>&1 &) ; true"), 8, 2, expect_fail=False, allow_left=True)
     add("SIGINT while the conductor is between shutdown stages", e2e_play(scene_x="quick"), 8, 2, sig=(0.45, signal.SIGINT), points="conduct.stage2=sleep:600ms")
     add("SIGTERM while the collector is still draining", e2e_play(scene_x="quick"), 8, 2, sig=(0.5, signal.SIGTERM), points="collector.loop=sleep:150ms")
+    # a foul that is only detected after the prompter has finished (shutdown stage 2), while a spotlight
+    # floods the audition with a backlog when it is told to hang up: the channels to the dead collector fill up
+    chatty = ("role srv\n  spotlight trap 'sleep 0.3 || true; for i in $(seq 1 40); do echo \"val 9\"; done; exit 0' HUP; "
+              "while true; do echo \"val 1\"; sleep 0.2; done\n  signal v scalar at (?P<ts_now>)val (?P<scalar>\\d+$)\n"
+              "  cleanup " + CLEAN + "\nend\ncast\n  a plays srv\n  b plays srv\nend\nscript\n  tempo 300ms\n  storyline ...\nend\n"
+              "audience\n  bob watches a v\n  bob audits throughout\n  bob expects always: [a v] < 5\nend\n")
+    for _ in range(3 if tier == "quick" else 10):
+        add("-S foul after the prompter finished, spotlight flushing a backlog on SIGHUP", chatty, 10, 2, args=["-S"], expect_fail=True)
+    add("-S foul after the prompter finished, one actor", chatty.replace("  b plays srv\n", ""), 10, 2, args=["-S"], expect_fail=True)
+    add("the same without -S", chatty, 10, 2, expect_fail=True)
     if tier == "thorough":
         add("final cleanup hangs (10 s time-out)", e2e_play(scene_x="quick", cleanup="if [ -e ran ]; then " + CLEAN + "; sleep 40; fi; touch ran; " + CLEAN), 16, None, expect_fail=True)
         for t_ in (0.2, 0.5, 0.8, 1.5):
@@ -194,7 +204,7 @@ def run(tier, seed):
             cl = len(open(os.path.join(r["cwd"], "cleanup.ledger")).read().split())
         except OSError:
             pass
-        ncast = 2
+        ncast = f["play"].text.count(" plays ")
         if f["cleanups"] is not None and cl != f["cleanups"] * ncast:
             problems.append("cleanup ran %d times for %d actors, expected %d per actor" % (cl, ncast, f["cleanups"]))
         left = leftover(os.path.basename(r["cwd"]))
